@@ -1,4 +1,5 @@
 //! Harness-side code that lives inside the linked-source crate (so it can name `crate::…`).
+pub mod hostcheck;
 pub mod policy;
 pub mod sigref;
 pub mod world;
